@@ -232,6 +232,11 @@ def generate(tier, seed, ctx):
     T3 = [[2.0, -1.0, 0.0], [-1.0, 2.0, -1.0], [0.0, -1.0, 2.0]]
     T3lam = [Fraction(2.0), Fraction(2.0 - math.sqrt(2.0)), Fraction(2.0 + math.sqrt(2.0))]
     R.append(req_matrix("c15.spectrum", T3)); meta[R[-1]] = ("eig", "repo-test", T3lam)
+    # minimal instance of the recorded finding: eigenvalues 0.8 and 1 (ratio 0.8), started 1e-10 away from the unsorted
+    # fixed point diag(0.8, 1): the sub-diagonal entry first grows by 1/0.8 per step, then decays by 0.8 per step,
+    # which takes more than the 200 steps allowed (the exact model agrees: err)
+    S2 = [[0.8, 1e-10], [1e-10, 1.0]]
+    R.append(req_matrix("c15.spectrum", S2)); meta[R[-1]] = ("eig", "slow-swap", [Fraction(0.8), Fraction(1.0)])
     for k in range(160 if thorough else 24):
         M, lam, fam = sym_matrix(rng, k, nmax=5)
         op = "c15.eigensystem" if k % 3 else "c15.eigenvectors"
